@@ -2,6 +2,7 @@ package main
 
 import (
 	"fmt"
+	"go/types"
 	"sort"
 	"strings"
 )
@@ -132,6 +133,35 @@ func (w *World) axiomsFor(terms []*Term) []string {
 			as = append(as, a.SMT())
 		}
 		out = append(out, fmt.Sprintf("(declare-fun %s (%s) %s)", smtName(n), strings.Join(as, " "), s.res.SMT()))
+	}
+	// dynamic-type predicates: a concrete dynamic type decides every interface test (method sets are
+	// known statically), and two different concrete types exclude each other
+	var tnames []string
+	for _, n := range names {
+		if _, ok := w.typeOfPred[n]; ok {
+			tnames = append(tnames, n)
+		}
+	}
+	for _, c := range tnames {
+		out = append(out, fmt.Sprintf("(assert (not (%s nilU)))", smtName(c)))
+	}
+	for _, c := range tnames {
+		ct := w.typeOfPred[c]
+		if types.IsInterface(ct) {
+			continue
+		}
+		for _, o := range tnames {
+			if o == c {
+				continue
+			}
+			ot := w.typeOfPred[o]
+			if it, ok := ot.Underlying().(*types.Interface); ok && types.IsInterface(ot) {
+				impl := types.Implements(ct, it)
+				out = append(out, fmt.Sprintf("(assert (forall ((v U)) (=> (%s v) (= (%s v) %v))))", smtName(c), smtName(o), impl))
+			} else if c < o {
+				out = append(out, fmt.Sprintf("(assert (forall ((v U)) (not (and (%s v) (%s v)))))", smtName(c), smtName(o)))
+			}
+		}
 	}
 	// abstract invariants hold for the zero value (proved in the defining package: obligations "#inv.zero")
 	for _, n := range names {
